@@ -34,6 +34,10 @@ func npmPartial(r *rand.Rand) string {
 	case k < 18:
 		return sn(r) + "." + Pick(r, "x", "X", "*")
 	case k < 19:
+		if r.Intn(3) == 0 {
+			// Numbers behind a wildcard (node reads "1.x.3" as "1.x").
+			return Pick(r, sn(r)+"."+Pick(r, "x", "*")+"."+sn(r), Pick(r, "x", "*")+"."+sn(r)+"."+sn(r), Pick(r, "x", "*")+"."+sn(r))
+		}
 		return Pick(r, "*", "x", "X")
 	}
 	return "v" + SemFull(r, false)
